@@ -9,6 +9,7 @@ use ec_core::child_maker::ChildMaker;
 use ec_core::operator::mutator::{Mutate, Mutator};
 use ec_core::operator::recombinator::Recombinator;
 use ec_core::operator::selector::best::Best;
+use ec_core::operator::selector::dyn_weighted::{DynWeighted, DynWeightedError};
 use ec_core::operator::selector::random::Random;
 use ec_core::operator::selector::tournament::Tournament;
 use ec_core::operator::selector::worst::Worst;
@@ -161,6 +162,69 @@ impl<S: Selector<Vec<i64>>> ChildMaker<Vec<i64>, S> for CmFailing {
     }
 }
 
+/// DynWeighted as a CONSUMER of erased selectors (trait index 5): forced lists - [0, k] a leaf that draws one word and
+/// selects index k (k >= 0) or fails with code -k; [1, [[member, weight]..]] a list; a member that is itself a list is
+/// handed over as the concrete `DynWeighted` value, the way user code nests them
+struct FixedSel(i64);
+impl Selector<Vec<i64>> for FixedSel {
+    type Error = Boom;
+    fn select<'p, R: rand::Rng + ?Sized>(&self, pop: &'p Vec<i64>, rng: &mut R) -> Result<&'p i64, Boom> {
+        let _ = rng.next_u64();
+        if self.0 >= 0 {
+            pop.get(self.0 as usize).ok_or(Boom(999))
+        } else {
+            Err(Boom(self.0.unsigned_abs()))
+        }
+    }
+}
+enum Forced {
+    Leaf(FixedSel),
+    List(DynWeighted<Vec<i64>>),
+}
+fn build_forced(t: &Tree, depth: usize) -> Option<Forced> {
+    if depth > 60 {
+        return None;
+    }
+    let l = t.list()?;
+    match l.first()?.int()? {
+        0 => Some(Forced::Leaf(FixedSel(l.get(1)?.i64()?))),
+        1 => {
+            let mut d: Option<DynWeighted<Vec<i64>>> = None;
+            for m in l.get(1)?.list()? {
+                let m = m.list()?;
+                let w = m.get(1)?.usize()?;
+                let node = build_forced(m.first()?, depth + 1)?;
+                d = Some(match (d, node) {
+                    (None, Forced::Leaf(s)) => DynWeighted::new(s, w),
+                    (None, Forced::List(x)) => DynWeighted::new(x, w),
+                    (Some(d), Forced::Leaf(s)) => d.with_selector(s, w),
+                    (Some(d), Forced::List(x)) => d.with_selector(x, w),
+                });
+            }
+            Some(Forced::List(d?))
+        }
+        _ => None,
+    }
+}
+/// the STRUCTURE of what a dynamic list reports: [0] EmptyPopulation, [1] ZeroWeightSum, [2, shape] Other(inner), where the
+/// inner error is identified by downcasting: a list's error (shape again), a leaf's own error [3, code], else [4]
+fn dyn_shape(e: &DynWeightedError) -> Tree {
+    match e {
+        DynWeightedError::EmptyPopulation(_) => tl![A(0)],
+        DynWeightedError::ZeroWeightSum(_) => tl![A(1)],
+        DynWeightedError::Other(b) => {
+            let inner: &(dyn std::error::Error + 'static) = &**b;
+            if let Some(d) = inner.downcast_ref::<DynWeightedError>() {
+                tl![A(2), dyn_shape(d)]
+            } else if let Some(Boom(c)) = inner.downcast_ref::<Boom>() {
+                tl![A(2), tl![A(3), a(*c)]]
+            } else {
+                tl![A(2), tl![A(4)]]
+            }
+        }
+    }
+}
+
 /// what an error reports: its message, then (-1) its debug form, then (-2 each) the messages of its source chain
 fn err_view(e: &(dyn std::error::Error + 'static)) -> Tree {
     let mut v: Vec<Tree> = e.to_string().bytes().map(a).collect();
@@ -291,6 +355,16 @@ fn run(input: &Tree) -> Option<Tree> {
                 }
                 _ => None,
             }
+        }
+        5 => {
+            let pop: Vec<i64> = (0..8).map(|i| i * 3).collect();
+            let Forced::List(sel) = build_forced(data, 0)? else { return None };
+            let mut r = Sm::new(seed);
+            let out = match sel.select(&pop, &mut r) {
+                Ok(p) => tl![A(0), idx(&pop, p)],
+                Err(e) => tl![A(1), dyn_shape(&e)],
+            };
+            Some(tl![A(55), out])
         }
         1 => {
             let g: Vec<bool> = data.list()?.iter().map(Tree::bool).collect::<Option<_>>()?;
@@ -423,6 +497,45 @@ fn gen(tier: &str, rng: &mut Sm) -> Gen {
             }
         }
     }
-    g.meta("generator", format!("5 erasable traits x (7,3,3,5,3) wrapped implementations x 28 pointer flavours x 2 call syntaxes x {reps} seeded inputs (selectors and child makers always also on the empty population)"));
+    // DynWeighted as a consumer of erased selectors: forced lists (at most one option of positive weight), nested up to
+    // five deep; the error of the option used must arrive as Other(that error), once per level
+    {
+        let leaf = |k: i64| tl![A(0), a(k)];
+        let list = |ms: Vec<(Tree, i64)>| tl![A(1), L(ms.into_iter().map(|(m, w)| tl![m, a(w)]).collect())];
+        let mut specs = vec![
+            list(vec![(leaf(3), 1)]),
+            list(vec![(leaf(-7), 1)]),
+            list(vec![(leaf(2), 0)]),
+            list(vec![(leaf(1), 0), (leaf(-5), 4), (leaf(0), 0)]),
+            list(vec![(list(vec![(leaf(-7), 1)]), 1)]),
+            list(vec![(list(vec![(leaf(2), 0)]), 1)]),
+            list(vec![(list(vec![(leaf(2), 0), (leaf(5), 0)]), 9), (leaf(1), 0)]),
+            list(vec![(list(vec![(list(vec![(leaf(-3), 2)]), 5)]), 1)]),
+            list(vec![(list(vec![(leaf(4), 1)]), 3)]),
+            list(vec![(leaf(1), 0), (list(vec![(leaf(7), 0), (list(vec![(leaf(-2), 1)]), 7)]), 2), (leaf(0), 0)]),
+            list(vec![(list(vec![(list(vec![(list(vec![(list(vec![(leaf(6), 0)]), 1)]), 1)]), 1)]), 1)]),
+        ];
+        fn random_forced(rng: &mut Sm, depth: u64) -> Tree {
+            let n = 1 + rng.below(3);
+            let chosen = if rng.chance(1, 6) { n } else { rng.below(n) }; // n: nobody (all weights zero)
+            let mut ms = vec![];
+            for i in 0..n {
+                let node = if depth < 4 && rng.chance(1, 2) {
+                    random_forced(rng, depth + 1)
+                } else {
+                    tl![A(0), a(if rng.chance(1, 2) { rng.range(0, 7) } else { -rng.range(1, 50) })]
+                };
+                ms.push(tl![node, a(if i == chosen { 1 + rng.below(9) as i64 } else { 0 })]);
+            }
+            tl![A(1), L(ms)]
+        }
+        for _ in 0..(if tier == "thorough" { 400 } else { 60 }) {
+            specs.push(random_forced(rng, 0));
+        }
+        for spec in specs {
+            g.inputs.push(tl![A(5), A(0), A(0), a(rng.next() >> 1), spec]);
+        }
+    }
+    g.meta("generator", format!("5 erasable traits x (7,3,3,5,3) wrapped implementations x 28 pointer flavours x 2 call syntaxes x {reps} seeded inputs (selectors and child makers always also on the empty population); DynWeighted as a consumer of erased selectors on 11 fixed and 60 / 400 random forced lists nested up to five deep"));
     g
 }
